@@ -4,7 +4,11 @@ import hashlib, json, os, re, shutil, subprocess, sys, time, glob, tempfile
 
 VERIF = os.path.dirname(os.path.dirname(os.path.abspath(__file__)))
 REPO = os.environ.get("VERIF_REPO", "/repo")
-BUILD = os.path.join(VERIF, "build")
+# a scratch tree (seeded-change evaluation: VERIF_REPO=/tmp/... bin/check <id>) gets its own build and evidence directories,
+# so it can never disturb the library cache or the evidence of /repo itself
+SCRATCH = os.path.realpath(REPO) != "/repo"
+BUILD = os.path.join(VERIF, "build") if not SCRATCH else os.path.join("/tmp", "verif-build-" + hashlib.sha1(os.path.realpath(REPO).encode()).hexdigest()[:10])
+EVIDENCE = os.path.join(VERIF, "evidence") if not SCRATCH else os.path.join(BUILD, "evidence")
 SPEC = os.path.join(VERIF, "spec")
 HARNESS = os.path.join(VERIF, "harness")
 GUARD = "ISAL_VERIF"
@@ -222,7 +226,7 @@ class Verdict:
         self.violations.append((key, desc, replay))
 
     def finish(self, level, coverage, assumptions, extra=None):
-        os.makedirs(os.path.join(VERIF, "evidence"), exist_ok=True)
+        os.makedirs(EVIDENCE, exist_ok=True)
         ev = {"property_id": self.pid, "tier": self.tier, "seed": seed(), "level": level,
               "coverage": coverage, "assumptions": assumptions,
               "wall_s": round(time.time() - self.t0, 2), "violations": len(self.violations)}
@@ -230,13 +234,13 @@ class Verdict:
             ev["known_findings_seen"] = sorted(self.known_hit)
         if extra:
             ev.update(extra)
-        with open(os.path.join(VERIF, "evidence", self.pid + ".json"), "w") as f:
+        with open(os.path.join(EVIDENCE, self.pid + ".json"), "w") as f:
             json.dump(ev, f, indent=1)
             f.write("\n")
         for k, (f, desc) in sorted(self.known_hit.items()):
             print("KNOWN-FINDING: property=%s %s" % (self.pid, f.get("what", k)))
         if self.violations:
-            rdir = os.path.join(VERIF, "build", "replay")
+            rdir = os.path.join(BUILD, "replay")
             os.makedirs(rdir, exist_ok=True)
             seen = set()
             n = 0
